@@ -54,8 +54,10 @@ pub const MIN_RELAY_SAT_PER_KW: u64 = 253;
 
 impl ChainModel {
 	pub fn new() -> Self {
+		// height 0 is the real genesis block: a fresh ChannelManager starts from it, and the
+		// Listen-style delivery requires every connected header to build on the previous one
 		let g = genesis_block(Network::Bitcoin);
-		let header = create_dummy_header(g.block_hash(), 42);
+		let header = g.header;
 		ChainModel {
 			blocks: vec![Block { header, txs: Vec::new() }],
 			utxos: HashMap::new(),
